@@ -9,6 +9,7 @@ from hypothesis import strategies as st
 import pendulum
 from pendulum import Duration
 from pendulum.duration import AbsoluteDuration
+from vf import strategies as S
 from vf.core import Skip, Sub, req
 
 warnings.simplefilter("ignore")
